@@ -198,6 +198,23 @@ def run_case(key, twin=False):
             twice = True
         except Exception:  # noqa: BLE001
             twice = False
+        if isinstance(key[2], tuple) and len(key[2]) >= 2:
+            # a second move whose axis SETS are those of the inverse but paired differently is not the inverse
+            src2, dst2 = tuple(key[3]), tuple(key[2][1:] + key[2][:1])
+            try:
+                MoveAxisOperator(src2, dst2, in_structure=outs).out_structure()
+
+                def mis(red):
+                    def f(x):
+                        o = mk()
+                        c = MoveAxisOperator(src2, dst2, in_structure=outs) @ o
+                        return (c.reduce() if red else c).mv(x)
+                    return f
+                m1, _, _ = E.run(ctx, mis(False), [('x', ins, 'sym')])
+                m2, _, _ = E.run(ctx, mis(True), [('x', ins, 'sym')])
+                res.append(('differently paired move', dec.decide(ctx, pairs(m1, m2, ctx))))
+            except ValueError:
+                pass
         if twice:
             def two(red):
                 def f(x):
@@ -253,6 +270,10 @@ def replay(key, model, info):
         close, msg = trees_close((op @ op.T).reduce().mv(y), y)
     elif kind == 'rule I@op':
         close, msg = trees_close((op.I @ op).reduce().mv(x), x)
+    elif kind == 'differently paired move':
+        from furax import MoveAxisOperator
+        o2 = MoveAxisOperator(tuple(key[3]), tuple(key[2][1:] + key[2][:1]), in_structure=op.out_structure())
+        close, msg = trees_close((o2 @ op).reduce().mv(x), o2.mv(op.mv(x)))
     elif kind == 'same move twice':
         from furax import MoveAxisOperator
         o2 = MoveAxisOperator(key[2], key[3], in_structure=op.out_structure())
